@@ -5,7 +5,8 @@
    library (LD_LIBRARY_PATH) and the two transcripts are compared.
 
    stdin: lines "c <phrase-hex> <setting-hex>" | "g <prefix-hex|-> <count> <rbytes-hex>" |
-          "d <key-hex8> <block-hex8>"; "-" = NULL, "." = empty.  */
+          "d <key-hex8> <block-hex8>" | "h <key-hex8> <block-hex8> <phrase-hex> <setting-hex>";
+          "-" = NULL, "." = empty.  */
 #include <crypt.h>
 #include <errno.h>
 #include <stdint.h>
@@ -187,6 +188,30 @@ main (void)
           for (int i = 0; i < 8; i++) { int v = 0; for (int j = 0; j < 8; j++) v = (v << 1) | (c64[i * 8 + j] & 1); printf ("%02x", v); }
           printf ("\n");
           free (k); free (b);
+        }
+      else if (a[0][0] == 'h' && n >= 5)
+        {
+          /* history on the process-global state, through the compat symbols only:
+             setkey ; crypt (any outcome) ; encrypt - the key must survive the hash call */
+          long kl, bl, pl, sl;
+          char *k = unhex (a[1], &kl), *b = unhex (a[2], &bl), *p = unhex (a[3], &pl), *s = unhex (a[4], &sl);
+          char k64[64], b64[64], c64[64];
+          for (int i = 0; i < 64; i++) { k64[i] = (k[i / 8] >> (7 - i % 8)) & 1; b64[i] = (b[i / 8] >> (7 - i % 8)) & 1; }
+          memcpy (c64, b64, 64);
+          old_setkey (k64);
+          switch ((k[2] ^ b[2]) % 3)
+            {
+            case 0: (void) old_crypt (p, s); break;
+            case 1: (void) old_fcrypt (p, s); break;
+            default: (void) old_xcrypt (p, s); break;
+            }
+          old_encrypt (b64, 0);
+          old_setkey_r (k64, big); old_encrypt_r (c64, 0, big);
+          if (memcmp (b64, c64, 64)) VIOL ("setkey;crypt;encrypt disagrees with setkey_r;encrypt_r: the hash call disturbed the static key");
+          printf ("H e=");
+          for (int i = 0; i < 8; i++) { int v = 0; for (int j = 0; j < 8; j++) v = (v << 1) | (b64[i * 8 + j] & 1); printf ("%02x", v); }
+          printf ("\n");
+          free (k); free (b); free (p); free (s);
         }
       else if (a[0][0] == 'p')
         {
